@@ -141,6 +141,7 @@ func (extInd *fileBuilder) printOption(opt *optionreflect.OptionDefinition) {
 	case optionreflect.FieldTypeMessage:
 		if len(parsed.root.Children) == 0 {
 			extInd.p("option ", typeName, " = {};")
+			return
 		}
 		extInd.p("option ", typeName, " = {")
 		extInd.printOptionMessageFields(parsed.root.Children)
